@@ -199,7 +199,7 @@ pub fn gen_sql(rng: &mut Rng) -> (String, bool) {
             let key = pick_col(rng, &s, "it").map(|c| c.0.clone());
             let n = 1 + rng.below(3) as usize;
             let aggs: Vec<String> = (0..n).map(|i| { let c = pick_col(rng, &s, "if").map(|c| c.0.clone()).unwrap_or("1".into());
-                let a = match rng.below(9) { 0 => format!("sum({c})"), 1 => format!("count({c})"), 2 => "count(*)".to_string(), 3 => format!("avg({c})"), 4 => format!("min({c})"), 5 => format!("max({c})"),
+                let a = match rng.below(10) { 9 => format!("{}(ALL {c})", *rng.pick(&["sum", "count", "avg"])), 0 => format!("sum({c})"), 1 => format!("count({c})"), 2 => "count(*)".to_string(), 3 => format!("avg({c})"), 4 => format!("min({c})"), 5 => format!("max({c})"),
                                              6 => format!("sum({c}) + count({c})"), 7 => format!("1 + max({c}) * 2"), _ => format!("count(DISTINCT {c})") };
                 format!("{a} AS m{i}") }).collect();
             match (key, rng.below(4)) {
